@@ -56,7 +56,7 @@ def faults():
 
 def bounds(tier):
     return {"triples": len(triples()), "faults_per_triple": str(len(faults())) + (" (first 3 triples; a 1/23 slice + genuine for the others)" if tier != "thorough" else ""),
-            "key_forms": 2, "scenarios": ["fresh", "after-previous-auth", "same credentials, authentication expired"]}
+            "key_forms": 2, "scenarios": ["fresh", "after-previous-auth", "same credentials, authentication expired", "live connection with stale data queued"]}
 
 
 def shards(tier):
@@ -64,8 +64,8 @@ def shards(tier):
     out = []
     for t in range(nt):
         for form in (0, 1):
-            for scen in (0, 1, 2):
-                out.append((t, form, scen, t >= 3 and tier != "thorough"))
+            for scen in (0, 1, 2, 3):
+                out.append((t, form, scen, (t >= 3 or scen == 3) and tier != "thorough"))
     return out
 
 
@@ -128,6 +128,16 @@ def execute(tidx: int, form: int, scen: int, fault):
             await ac.authenticate(token, key)
             await ac.refresh()
             w.loop.jump(13 * 3600)
+        if scen == 3:
+            # live authenticated connection with unread data queued (an unsolicited encrypted report and a stray,
+            # late handshake reply), then the user authenticates again
+            await ac.authenticate(token, key)
+            await ac.refresh()
+            conn = w.net.conns[-1]
+            conn.deliver(dev.wrap(conn, dev.ac.report(0x05, 0x31)), 0.001)
+            conn.deliver(rc.v3_build_plain(rc.T_HANDSHAKE_RESP, 0, rc.handshake_reply_body(key, filler("c06/stale-nonce", 32))), 0.002)
+            import asyncio as _a
+            await _a.sleep(0.01)
         before = (ac.token, ac.key)
         marks["start"] = len(dev.rx)
         state["armed"] = True
@@ -192,7 +202,7 @@ def judge(st: Stats, case, obs, dev, marks, tidx, scen, fault):
             if e.get("ptype") != rc.T_HANDSHAKE_REQ or e.get("token") != token:
                 prob = "something other than a handshake request with the token was sent"
                 break
-    if prob is None and scen in (0, 2):
+    if prob is None and scen in (0, 2):  # scen 1/3: an older session exists and stays usable
         # session must still be unauthenticated: no data packet may precede a new handshake request
         for e in post:
             if e.get("ptype") == rc.T_HANDSHAKE_REQ:
